@@ -31,9 +31,9 @@ Apply1(op, i) ==
   /\ Enabled1(op, heap[i]) /\ Len(prog) <= MaxOps
   /\ \E ds \in Out1W(op, heap[i]) :
         /\ Len(heap) + Len(ds) <= MaxHeap
-        /\ \A k \in 1..Len(ds) : ~ds[k].tri \/ op = "qr"        \* keep exploration small: free flags down unless promised
-        /\ \A k \in 1..Len(ds) : ds[k].herm => (op \in {"gram"} \/ heap[i].herm)
-        /\ \A k \in 1..Len(ds) : ds[k].orth => (op \in {"qr", "svd", "hess", "eig"} \/ heap[i].orth)
+        /\ \A k \in 1..Len(ds) : ~ds[k].tri \/ op \in {"qr", "lu"}   \* keep exploration small: free flags down unless promised
+        /\ \A k \in 1..Len(ds) : ds[k].herm => (op \in {"gram", "tridiag"} \/ heap[i].herm)
+        /\ \A k \in 1..Len(ds) : ds[k].orth => (op \in {"qr", "svd", "hess", "eig", "lu", "tridiag", "trunc1", "schur"} \/ heap[i].orth)
         /\ heap' = heap \o ds
   /\ prog' = Append(prog, <<op, i, 0>>)
 ApplyMul(i, j) ==
@@ -43,9 +43,11 @@ ApplyMul(i, j) ==
         /\ heap' = heap \o ds
   /\ prog' = Append(prog, <<"mul", i, j>>)
 ApplyRank(i) == Len(prog) <= MaxOps /\ prog' = Append(prog, <<"rank", i, 0>>) /\ UNCHANGED heap
+ApplyDet(i) == heap[i].m = heap[i].n /\ Len(prog) <= MaxOps /\ prog' = Append(prog, <<"det", i, 0>>) /\ UNCHANGED heap
 Next == \E i \in 1..Len(heap) :
           \/ \E op \in Ops1 : Apply1(op, i)
           \/ ApplyRank(i)
+          \/ ApplyDet(i)
           \/ \E j \in 1..Len(heap) : ApplyMul(i, j)
 Spec == Init /\ [][Next]_vars
 HeapWellFormed == \A i \in 1..Len(heap) : WellFormed(heap[i])
